@@ -32,6 +32,16 @@ MCOpsCore  == {o \in LegalAdd : o.n = 1 \/ o.c = 0} \cup {o \in FinOps : o.q = "
 \* access-time alphabet: ageing, touching, evicting, reading
 MCOpsLRU   == AgeOps \cup TouchOps \cup ExpOps \cup {o \in LegalRead : o.c = 0 /\ o.i # NP}
 
+\* deletion racing with arrivals: one thread verifies piece 1 (full at the start), one deletes the torrent, one stores both
+\* blocks of piece 0 and one verifies piece 0 - the deletion sweeps piece 0, waits for piece 1 to be hashed, and piece 0
+\* arrives again meanwhile
+RaceOp(t) == CASE t = t1 -> Op("fin", 1, 0, 0, "right", "-")
+               [] t = t2 -> Op("del", 0, 0, 0, "-", "-")
+               [] t = t3 -> Op("add", 0, 0, 2, "good", "ok")
+               [] OTHER  -> Op("fin", 0, 0, 0, "right", "-")
+MCOpsDelRace == {RaceOp(t) : t \in {t1, t2, t3, t4}}
+RaceAssigned == \A t \in Threads : pc[t] # "idle" => op[t] = RaceOp(t)
+MCInitRace == {"empty", "fullgood"}
 MCInitAll  == {"empty", "partial", "fullgood", "fullbad", "complete"}
 IdRank == [k \in 1..NP |-> k - 1]
 MCRankId == {IdRank}
